@@ -37,7 +37,7 @@ def oracle(ctx):
                         continue
                     if val is None:
                         ctx.oracle_fail(f"non-null range [{lo!r},{hi!r}] decoded to a null (null stand-in {nm!r})", case, "null"); continue
-                    if isinstance(cv, RealConvertor) and "df" in t:
+                    if isinstance(cv, RealConvertor) and "df" in t and not t.get("refit"):
                         # the column's values need this many decimal places (shortest repr); rounding to fewer cannot return them
                         from decimal import Decimal
                         col = t["df"].iloc[:, comb[j]].dropna()
